@@ -49,9 +49,10 @@ type scheduler struct {
 	locks    map[*Value]*lockState
 	conds    map[*Value][]*condWaiter
 	accesses map[*Value]*accessInfo
+	sleepGen int
 }
 
-const maxPreempts = 2
+var maxPreempts = 1
 
 func (in *Interp) ensureSched() *scheduler {
 	if in.sched == nil {
@@ -556,9 +557,6 @@ func (in *Interp) mutexUnlock(m *Value, read bool) {
 	}
 	if l.holder == nil && len(l.readers) == 0 {
 		delete(g.locks, m)
-	}
-	if len(s.gs) > 1 {
-		s.yield(nil, "unlock")
 	}
 }
 
